@@ -202,6 +202,13 @@ theorem Wp.utf8Unwrap {bs : VBytes} {Q : Unit → LR → Prop} (hb : ∀ x ∈ b
 
 /-! ### what a scanner may change -/
 
+/-- The source-failure bookkeeping of the view: a failing source that has hit the end has its
+error parked (until `check_io_error` takes it, which always ends the parse), and only a failing
+source parks an error. -/
+def FInv (lr : LR) : Prop :=
+  (lr.v.fault = true → lr.v.sawEnd = true → lr.v.ioErr = true) ∧
+  (lr.v.ioErr = true → lr.v.fault = true)
+
 /-- `lr'` is `lr` after look-ahead only: nothing consumed, same line, same mark. -/
 structure Ext (lr lr' : LR) : Prop where
   rest : lr'.v.rest = lr.v.rest
@@ -210,27 +217,42 @@ structure Ext (lr lr' : LR) : Prop where
   line : lr'.line = lr.line
   lineStart : lr'.lineStart = lr.lineStart
   peeked : lr.v.peeked ≤ lr'.v.peeked
+  fault : lr'.v.fault = lr.v.fault
+  finv : FInv lr → FInv lr'
 
-theorem Ext.refl (lr : LR) : Ext lr lr := ⟨rfl, rfl, rfl, rfl, rfl, Nat.le_refl _⟩
+theorem Ext.refl (lr : LR) : Ext lr lr := ⟨rfl, rfl, rfl, rfl, rfl, Nat.le_refl _, rfl, id⟩
 
 theorem Ext.trans {a b c : LR} (h1 : Ext a b) (h2 : Ext b c) : Ext a c :=
   ⟨h2.rest.trans h1.rest, h2.pos.trans h1.pos, h2.mark.trans h1.mark, h2.line.trans h1.line,
-    h2.lineStart.trans h1.lineStart, Nat.le_trans h1.peeked h2.peeked⟩
+    h2.lineStart.trans h1.lineStart, Nat.le_trans h1.peeked h2.peeked, h2.fault.trans h1.fault,
+    fun h => h2.finv (h1.finv h)⟩
 
-theorem Ext.demand (lr : LR) (k : Nat) :
-    Ext lr { lr with v := lr.v.demand k } ∧ lr.v.pos + k + 1 ≤ (lr.v.demand k).peeked := by
-  obtain ⟨h1, h2, h3, h4, _⟩ := C16.demand_effect lr.v k
-  exact ⟨⟨h1, h2, h3, rfl, rfl, by rw [h4]; omega⟩, by rw [h4]; omega⟩
+theorem demand_finv (v : View) (k : Nat)
+    (h : (v.fault = true → v.sawEnd = true → v.ioErr = true) ∧ (v.ioErr = true → v.fault = true)) :
+    ((v.demand k).fault = true → (v.demand k).sawEnd = true → (v.demand k).ioErr = true) ∧
+    ((v.demand k).ioErr = true → (v.demand k).fault = true) := by
+  unfold View.demand
+  by_cases hk : k < v.rest.length
+  · simpa [hk] using h
+  · simp only [hk, ↓reduceIte]
+    revert h
+    cases v.fault <;> cases v.sawEnd <;> cases v.ioErr <;> simp
 
-theorem Ext.demand2 (lr : LR) (j k : Nat) :
-    Ext lr { lr with v := (lr.v.demand j).demand k } ∧
-    lr.v.pos + j + 1 ≤ ((lr.v.demand j).demand k).peeked ∧
-    lr.v.pos + k + 1 ≤ ((lr.v.demand j).demand k).peeked := by
-  obtain ⟨e1, p1⟩ := Ext.demand lr j
-  obtain ⟨e2, p2⟩ := Ext.demand { lr with v := lr.v.demand j } k
-  refine ⟨e1.trans e2, ?_, ?_⟩
-  · have := e2.peeked; simp only at this p2 ⊢; omega
-  · have := e1.pos; simp only at this p2 ⊢; omega
+variable {lr0 : LR}
+
+/-- Demanding offset `k` from a state that differs from the base state `lr0` by look-ahead. -/
+theorem Ext.demandF (e : Ext lr0 lr) (k : Nat) :
+    Ext lr0 { lr with v := lr.v.demand k } ∧
+    (lr.v.demand k).peeked = max lr.v.peeked (lr0.v.pos + k + 1) ∧
+    (lr0.v.rest.length ≤ k → (lr.v.demand k).sawEnd = true) := by
+  obtain ⟨h1, h2, h3, h4, h5⟩ := C16.demand_effect lr.v k
+  have hf : (lr.v.demand k).fault = lr.v.fault := by
+    unfold View.demand; dsimp only; split <;> rfl
+  refine ⟨e.trans ⟨h1, h2, h3, rfl, rfl, by rw [h4]; omega, hf, demand_finv lr.v k⟩, ?_, ?_⟩
+  · rw [h4, e.pos]
+  · intro hk
+    rw [h5, e.rest]
+    simp [hk]
 
 /-- All of `l[i..j)` exist and satisfy `p`. -/
 def AllAt (p : UInt8 → Prop) (l : VBytes) (i j : Nat) : Prop :=
@@ -278,89 +300,122 @@ theorem takeWhile_end (p : UInt8 → Bool) (l : VBytes) (off : Nat) (h : off ≤
   simp only [List.length_drop] at this
   omega
 
-/-! ### scanner rules -/
+/-! ### scanner rules
 
-theorem Wp.reqAt' (k : Nat) :
-    Wp E (PM.reqAt k) lr (fun a lr1 => a = lr.v.rest[k]? ∧ Ext lr lr1 ∧ lr.v.pos + k + 1 ≤ lr1.v.peeked) := by
-  obtain ⟨e, p⟩ := Ext.demand lr k
-  exact Wp.reqAt ⟨rfl, e, p⟩
+Inside a token function several scans follow each other; `lr0` is the state at the entry of the
+function, `lr` the current one (`Ext lr0 lr`: only look-ahead happened in between).  All facts are
+stated about `lr0`, so they chain without rewriting.  Each rule says what the scanner returns in
+terms of the bytes in front of the cursor, and what it does to the look-ahead ghost `peeked`
+(exactly, or bounded from both sides). -/
+
+theorem Wp.reqAtF (e : Ext lr0 lr) (k : Nat) :
+    Wp E (PM.reqAt k) lr (fun a lr1 => Ext lr0 lr1 ∧ a = lr0.v.rest[k]? ∧
+      lr1.v.peeked = max lr.v.peeked (lr0.v.pos + k + 1) ∧ (a = none → lr1.v.sawEnd = true)) := by
+  obtain ⟨e1, p, se⟩ := e.demandF k
+  refine Wp.reqAt ⟨e1, by rw [e.rest], p, ?_⟩
+  intro ha
+  apply se
+  rw [e.rest] at ha
+  exact List.getElem?_eq_none_iff.mp ha
+
+theorem Wp.reqByteF (e : Ext lr0 lr) :
+    Wp E PM.reqByte lr (fun a lr1 => Ext lr0 lr1 ∧ a = lr0.v.rest[0]? ∧
+      lr1.v.peeked = max lr.v.peeked (lr0.v.pos + 0 + 1) ∧ (a = none → lr1.v.sawEnd = true)) :=
+  Wp.reqAtF e 0
 
 /-- `tabs_or_spaces` from `off`. -/
-theorem Wp.tabs (off : Nat) :
-    Wp E (PM.scan (Text.tabsOrSpaces · off)) lr (fun r lr1 => Ext lr lr1 ∧ off ≤ r ∧
-      AllAt (fun x => isBlank x = true) lr.v.rest off r ∧ lr.v.pos + r + 1 ≤ lr1.v.peeked ∧
-      (off ≤ lr.v.rest.length → r ≤ lr.v.rest.length)) := by
+theorem Wp.tabsF (e : Ext lr0 lr) (off : Nat) :
+    Wp E (PM.scan (Text.tabsOrSpaces · off)) lr (fun r lr1 => Ext lr0 lr1 ∧ off ≤ r ∧
+      AllAt (fun x => isBlank x = true) lr0.v.rest off r ∧
+      (off ≤ lr0.v.rest.length → r ≤ lr0.v.rest.length) ∧
+      lr1.v.peeked = max lr.v.peeked (lr0.v.pos + r + 1)) := by
   apply Wp.scan
   obtain ⟨h1, h2⟩ := C16.tabs_or_spaces_spec lr.v off
-  rw [h1, h2]
-  obtain ⟨e, p⟩ := Ext.demand lr (off + ((lr.v.rest.drop off).takeWhile isBlank).length)
-  exact ⟨e, by omega, allAt_takeWhile isBlank _ _, p, takeWhile_end isBlank _ _⟩
+  rw [h1, h2, e.rest]
+  obtain ⟨e1, p, _⟩ := e.demandF (off + ((lr0.v.rest.drop off).takeWhile isBlank).length)
+  exact ⟨e1, by omega, allAt_takeWhile isBlank _ _, takeWhile_end isBlank _ _, p⟩
 
 /-- `newline` at the cursor: nothing, LF, or CRLF. -/
-theorem Wp.newline0 :
-    Wp E (PM.scan (Text.newline · 0)) lr (fun r lr1 => Ext lr lr1 ∧ lr.v.pos + r ≤ lr1.v.peeked ∧
-      (r = 0 ∨ (r = 1 ∧ lr.v.rest[0]? = some 10) ∨
-        (r = 2 ∧ lr.v.rest[0]? = some 13 ∧ lr.v.rest[1]? = some 10))) := by
+theorem Wp.newline0F (e : Ext lr0 lr) :
+    Wp E (PM.scan (Text.newline · 0)) lr (fun r lr1 => Ext lr0 lr1 ∧
+      ((r = 0 ∧ lr0.v.rest[0]? ≠ some 10) ∨ (r = 1 ∧ lr0.v.rest[0]? = some 10) ∨
+        (r = 2 ∧ lr0.v.rest[0]? = some 13 ∧ lr0.v.rest[1]? = some 10)) ∧
+      lr1.v.peeked = max lr.v.peeked
+        (lr0.v.pos + (if r = 0 then (if lr0.v.rest[0]? = some 13 then 2 else 1) else r))) := by
   apply Wp.scan
   obtain ⟨s1, s2, s3, s4⟩ := C16.newline_spec lr.v 0
-  by_cases h10 : lr.v.rest[0]? = some 10
+  rw [e.rest] at s1 s2 s3 s4
+  by_cases h10 : lr0.v.rest[0]? = some 10
   · rw [s1 h10]
-    obtain ⟨e, p⟩ := Ext.demand lr 0
-    exact ⟨e, by simp only at p ⊢; omega, Or.inr (Or.inl ⟨rfl, h10⟩)⟩
-  · by_cases h13 : lr.v.rest[0]? = some 13
-    · obtain ⟨e, p1, p2⟩ := Ext.demand2 lr 0 (0 + 1)
-      by_cases h1 : lr.v.rest[0 + 1]? = some 10
+    obtain ⟨e1, p, _⟩ := e.demandF 0
+    exact ⟨e1, Or.inr (Or.inl ⟨rfl, h10⟩), by simpa using p⟩
+  · by_cases h13 : lr0.v.rest[0]? = some 13
+    · obtain ⟨e1, p1, _⟩ := e.demandF 0
+      obtain ⟨e2, p2, _⟩ := e1.demandF (0 + 1)
+      simp only at p1 p2
+      by_cases h1 : lr0.v.rest[0 + 1]? = some 10
       · rw [s2 h13 h1]
-        exact ⟨e, by simp only at p2 ⊢; omega, Or.inr (Or.inr ⟨rfl, h13, h1⟩)⟩
+        refine ⟨e2, Or.inr (Or.inr ⟨rfl, h13, h1⟩), ?_⟩
+        simp only [p2, p1]; simp <;> omega
       · rw [s3 h13 h1]
-        exact ⟨e, by simp only at p2 ⊢; omega, Or.inl rfl⟩
+        refine ⟨e2, Or.inl ⟨rfl, h10⟩, ?_⟩
+        simp only [p2, p1, h13]; simp <;> omega
     · rw [s4 h10 h13]
-      obtain ⟨e, p⟩ := Ext.demand lr 0
-      exact ⟨e, by simp only at p ⊢; omega, Or.inl rfl⟩
+      obtain ⟨e1, p, _⟩ := e.demandF 0
+      refine ⟨e1, Or.inl ⟨rfl, h10⟩, ?_⟩
+      simp only [p, h13]; simp
 
 /-- `next_newline` from `off`: up to and including the next LF, or to the end of the input. -/
-theorem Wp.nextNewline (off : Nat) :
-    Wp E (PM.scan (Text.nextNewline · off)) lr (fun r lr1 => Ext lr lr1 ∧ off ≤ r ∧
-      lr.v.pos + r ≤ lr1.v.peeked ∧ (off ≤ lr.v.rest.length → r ≤ lr.v.rest.length) ∧
-      ((off < r ∧ lr.v.rest[r - 1]? = some 10 ∧ AllAt (· ≠ 10) lr.v.rest off (r - 1)) ∨
-       (lr.v.rest.length ≤ r ∧ AllAt (· ≠ 10) lr.v.rest off r))) := by
+theorem Wp.nextNewlineF (e : Ext lr0 lr) (off : Nat) :
+    Wp E (PM.scan (Text.nextNewline · off)) lr (fun r lr1 => Ext lr0 lr1 ∧ off ≤ r ∧
+      (off ≤ lr0.v.rest.length → r ≤ lr0.v.rest.length) ∧
+      ((off < r ∧ lr0.v.rest[r - 1]? = some 10 ∧ AllAt (· ≠ 10) lr0.v.rest off (r - 1) ∧
+          lr1.v.peeked = max lr.v.peeked (lr0.v.pos + r)) ∨
+       (lr0.v.rest.length ≤ r ∧ AllAt (· ≠ 10) lr0.v.rest off r ∧
+          lr1.v.peeked = max lr.v.peeked (lr0.v.pos + r + 1) ∧ lr1.v.sawEnd = true))) := by
   apply Wp.scan
   obtain ⟨s1, s2, s3, s4⟩ := C16.next_newline_spec lr.v off
-  have hall := allAt_takeWhile (· != 10) lr.v.rest off
-  have hall' : AllAt (· ≠ 10) lr.v.rest off
-      (off + ((lr.v.rest.drop off).takeWhile (· != 10)).length) :=
+  rw [e.rest] at s1 s2 s3 s4
+  have hall := allAt_takeWhile (· != 10) lr0.v.rest off
+  have hall' : AllAt (· ≠ 10) lr0.v.rest off
+      (off + ((lr0.v.rest.drop off).takeWhile (· != 10)).length) :=
     hall.mono (fun x hx => by simpa using hx)
-  have hend := takeWhile_end (· != 10) lr.v.rest off
-  obtain ⟨e, p⟩ := Ext.demand lr (off + ((lr.v.rest.drop off).takeWhile (· != 10)).length)
+  have hend := takeWhile_end (· != 10) lr0.v.rest off
+  obtain ⟨e1, p, se⟩ := e.demandF (off + ((lr0.v.rest.drop off).takeWhile (· != 10)).length)
   rw [s1]
   rcases s4 with h | h
   · have hr := s2 h
     have hlt := (List.getElem?_eq_some_iff.mp h).1
     rw [hr]
-    refine ⟨e, by omega, by simp only at p ⊢; omega, fun _ => by omega, Or.inl ⟨by omega, ?_, ?_⟩⟩
+    refine ⟨e1, by omega, fun _ => by omega, Or.inl ⟨by omega, ?_, ?_, p⟩⟩
     · simpa using h
     · simpa using hall'
   · obtain ⟨hr, hge⟩ := s3 h
     rw [hr]
-    exact ⟨e, by omega, by simp only at p ⊢; omega, hend, Or.inr ⟨hge, hall'⟩⟩
+    exact ⟨e1, by omega, hend, Or.inr ⟨hge, hall', p, se hge⟩⟩
 
-/-- `fixed` at the cursor: all of the pattern or nothing. -/
-theorem Wp.fixed0 (pat : VBytes) :
-    Wp E (PM.scan (Text.fixed · 0 pat)) lr (fun r lr1 => Ext lr lr1 ∧
-      (r = 0 ∨ (r = pat.length ∧ pat <+: lr.v.rest ∧ lr.v.pos + r ≤ lr1.v.peeked))) := by
+/-- `fixed` at the cursor: all of the pattern or nothing; it never looks beyond the pattern. -/
+theorem Wp.fixed0F (e : Ext lr0 lr) (pat : VBytes) :
+    Wp E (PM.scan (Text.fixed · 0 pat)) lr (fun r lr1 => Ext lr0 lr1 ∧
+      lr.v.peeked ≤ lr1.v.peeked ∧ lr1.v.peeked ≤ max lr.v.peeked (lr0.v.pos + pat.length) ∧
+      ((r = 0 ∧ (pat = [] ∨ ¬ pat <+: lr0.v.rest)) ∨
+       (r = pat.length ∧ pat <+: lr0.v.rest ∧ lr0.v.pos + r ≤ lr1.v.peeked))) := by
   apply Wp.scan
   obtain ⟨s1, s2, s3, s4, s5⟩ := C16.fixed_spec lr.v 0 pat
   simp only [List.drop_zero, Nat.zero_add] at s1 s2 s4 s5
-  by_cases hp : pat <+: lr.v.rest
+  rw [e.rest] at s1 s2 s4 s5
+  by_cases hp : pat <+: lr0.v.rest
   · by_cases hne : pat = []
     · rw [s3 hne, s1 hp]; subst hne
-      exact ⟨Ext.refl lr, Or.inl rfl⟩
+      exact ⟨e, Nat.le_refl _, by simp only; omega, Or.inl ⟨rfl, Or.inl rfl⟩⟩
     · rw [s1 hp, s4 hne hp]
-      obtain ⟨e, p⟩ := Ext.demand lr (pat.length - 1)
+      obtain ⟨e1, p, _⟩ := e.demandF (pat.length - 1)
       have : 0 < pat.length := List.length_pos_iff.mpr hne
-      exact ⟨e, Or.inr ⟨rfl, hp, by simp only at p ⊢; omega⟩⟩
+      refine ⟨e1, ?_, ?_, Or.inr ⟨rfl, hp, ?_⟩⟩ <;> (simp only; omega)
   · rw [s2 hp, (s5 hp).1]
-    exact ⟨(Ext.demand lr _).1, Or.inl rfl⟩
+    obtain ⟨e1, p, _⟩ := e.demandF (Text.matchLen pat lr0.v.rest)
+    have := (s5 hp).2.1
+    refine ⟨e1, ?_, ?_, Or.inl ⟨rfl, Or.inr hp⟩⟩ <;> (simp only; omega)
 
 theorem digitsLoop_count (t : IntTy) (sub : Bool) (bs : VBytes) (v : Int) (o : Bool) (n : Nat) :
     (Text.digitsLoop t sub bs v o n).2.2 = n + (bs.takeWhile isDigit).length := by
@@ -386,128 +441,61 @@ theorem digitsCont_spec (t : IntTy) (sub : Bool) (v : View) (off : Nat) (value :
   exact ⟨rfl, rfl⟩
 
 /-- `ascii_digits` from `off`: passes over digits only. -/
-theorem Wp.asciiDigits (t : IntTy) (off : Nat) :
-    Wp E (PM.scan (Text.asciiDigits t · off)) lr (fun r lr1 => Ext lr lr1 ∧ off ≤ r.2 ∧
-      AllAt (fun x => isDigit x = true) lr.v.rest off r.2 ∧ lr.v.pos + r.2 + 1 ≤ lr1.v.peeked ∧
-      (off ≤ lr.v.rest.length → r.2 ≤ lr.v.rest.length)) := by
+theorem Wp.asciiDigitsF (e : Ext lr0 lr) (t : IntTy) (off : Nat) :
+    Wp E (PM.scan (Text.asciiDigits t · off)) lr (fun r lr1 => Ext lr0 lr1 ∧ off ≤ r.2 ∧
+      AllAt (fun x => isDigit x = true) lr0.v.rest off r.2 ∧
+      (off ≤ lr0.v.rest.length → r.2 ≤ lr0.v.rest.length) ∧
+      lr1.v.peeked = max lr.v.peeked (lr0.v.pos + r.2 + 1)) := by
   apply Wp.scan
   obtain ⟨h1, h2⟩ := digitsCont_spec t false lr.v off (some 0)
   simp only [Text.asciiDigits]
-  rw [h1, h2]
-  obtain ⟨e, p⟩ := Ext.demand lr (off + ((lr.v.rest.drop off).takeWhile isDigit).length)
-  exact ⟨e, by omega, allAt_takeWhile isDigit _ _, p, takeWhile_end isDigit _ _⟩
+  rw [h1, h2, e.rest]
+  obtain ⟨e1, p, _⟩ := e.demandF (off + ((lr0.v.rest.drop off).takeWhile isDigit).length)
+  exact ⟨e1, by omega, allAt_takeWhile isDigit _ _, takeWhile_end isDigit _ _, p⟩
 
 /-- `signed_ascii_digits` at the cursor: passes over an optional `-` and digits only. -/
-theorem Wp.signedDigits0 (t : IntTy) :
-    Wp E (PM.scan (Text.signedAsciiDigits t · 0)) lr (fun r lr1 => Ext lr lr1 ∧
-      AllAt (fun x => isDigit x = true ∨ x = 45) lr.v.rest 0 r.2) := by
+theorem Wp.signedDigits0F (e : Ext lr0 lr) (t : IntTy) :
+    Wp E (PM.scan (Text.signedAsciiDigits t · 0)) lr (fun r lr1 => Ext lr0 lr1 ∧
+      lr.v.peeked ≤ lr1.v.peeked ∧
+      AllAt (fun x => isDigit x = true ∨ x = 45) lr0.v.rest 0 r.2 ∧
+      (lr1.v.peeked ≤ max lr.v.peeked (lr0.v.pos + r.2 + 1) ∨
+       (r.2 = 0 ∧ lr0.v.rest[0]? = some 45 ∧ lr1.v.peeked ≤ max lr.v.peeked (lr0.v.pos + 2)))) := by
   apply Wp.scan
-  simp only [Text.signedAsciiDigits]
+  simp only [Text.signedAsciiDigits, Nat.zero_add]
+  rw [e.rest]
+  obtain ⟨e1, p1, _⟩ := e.demandF 0
+  obtain ⟨e2, p2, _⟩ := e1.demandF 1
+  simp only at p1 p2
   split
   · rename_i h45
     split
     · rename_i d hd
       split
       · rename_i hdig
-        have hcnt := digitsLoop_count t true (lr.v.rest.drop (0 + 2)) (t.osub 0 (digitVal d)).1
+        have hcnt := digitsLoop_count t true (lr0.v.rest.drop (0 + 2)) (t.osub 0 (digitVal d)).1
           (t.osub 0 (digitVal d)).2 0
-        generalize Text.digitsLoop t true (lr.v.rest.drop (0 + 2)) (t.osub 0 (digitVal d)).1
+        generalize Text.digitsLoop t true (lr0.v.rest.drop (0 + 2)) (t.osub 0 (digitVal d)).1
           (t.osub 0 (digitVal d)).2 0 = r at *
         obtain ⟨a, c, n⟩ := r
         simp only [Nat.zero_add] at hcnt ⊢
         subst hcnt
-        refine ⟨?_, ?_⟩
-        · obtain ⟨e1, _⟩ := Ext.demand2 lr 0 (0 + 1)
-          obtain ⟨e2, _⟩ := Ext.demand { lr with v := (lr.v.demand 0).demand (0 + 1) }
-            (2 + ((lr.v.rest.drop 2).takeWhile isDigit).length)
-          exact e1.trans e2
-        · intro k _ hk
-          by_cases hk0 : k = 0
-          · subst hk0; exact ⟨45, h45, Or.inr rfl⟩
-          · by_cases hk1 : k = 1
-            · subst hk1; exact ⟨d, by simpa using hd, Or.inl hdig⟩
-            · obtain ⟨x, hx, hp⟩ := allAt_takeWhile isDigit lr.v.rest 2 k (by omega) hk
-              exact ⟨x, hx, Or.inl hp⟩
-      · exact ⟨(Ext.demand2 lr 0 (0 + 1)).1, AllAt.empty _ _ _⟩
-    · exact ⟨(Ext.demand2 lr 0 (0 + 1)).1, AllAt.empty _ _ _⟩
+        obtain ⟨e3, p3, _⟩ := e2.demandF (2 + ((lr0.v.rest.drop 2).takeWhile isDigit).length)
+        simp only at p3
+        refine ⟨e3, by omega, ?_, Or.inl (by omega)⟩
+        intro k _ hk
+        by_cases hk0 : k = 0
+        · subst hk0; exact ⟨45, h45, Or.inr rfl⟩
+        · by_cases hk1 : k = 1
+          · subst hk1; exact ⟨d, by simpa using hd, Or.inl hdig⟩
+          · obtain ⟨x, hx, hp⟩ := allAt_takeWhile isDigit lr0.v.rest 2 k (by omega) hk
+            exact ⟨x, hx, Or.inl hp⟩
+      · exact ⟨e2, by simp only; omega, AllAt.empty _ _ _, Or.inr ⟨rfl, h45, by simp only; omega⟩⟩
+    · exact ⟨e2, by simp only; omega, AllAt.empty _ _ _, Or.inr ⟨rfl, h45, by simp only; omega⟩⟩
   · obtain ⟨h1, h2⟩ := digitsCont_spec t false lr.v 0 (some 0)
-    rw [h1, h2]
-    obtain ⟨e, _⟩ := Ext.demand lr (0 + ((lr.v.rest.drop 0).takeWhile isDigit).length)
-    exact ⟨e, (allAt_takeWhile isDigit _ _).mono (fun x hx => Or.inl hx)⟩
-
-/-! ### the scanner rules relative to a base state
-
-Inside a token function several scans follow each other; `lr0` is the state at the entry of the
-function, `lr` the current one (`Ext lr0 lr`: only look-ahead happened in between).  All facts are
-stated about `lr0`, so they chain without rewriting. -/
-
-variable {lr0 : LR}
-
-theorem Wp.reqAtF (e : Ext lr0 lr) (k : Nat) :
-    Wp E (PM.reqAt k) lr (fun a lr1 => Ext lr0 lr1 ∧ lr.v.peeked ≤ lr1.v.peeked ∧
-      a = lr0.v.rest[k]? ∧ lr0.v.pos + k + 1 ≤ lr1.v.peeked) := by
-  refine (Wp.reqAt' k).mono ?_
-  intro a lr1 ⟨h1, e1, h2⟩
-  rw [e.rest] at h1; rw [e.pos] at h2
-  exact ⟨e.trans e1, e1.peeked, h1, h2⟩
-
-theorem Wp.tabsF (e : Ext lr0 lr) (off : Nat) :
-    Wp E (PM.scan (Text.tabsOrSpaces · off)) lr (fun r lr1 => Ext lr0 lr1 ∧
-      lr.v.peeked ≤ lr1.v.peeked ∧ off ≤ r ∧
-      AllAt (fun x => isBlank x = true) lr0.v.rest off r ∧ lr0.v.pos + r + 1 ≤ lr1.v.peeked ∧
-      (off ≤ lr0.v.rest.length → r ≤ lr0.v.rest.length)) := by
-  refine (Wp.tabs off).mono ?_
-  intro r lr1 ⟨e1, h⟩
-  rw [e.rest, e.pos] at h
-  exact ⟨e.trans e1, e1.peeked, h⟩
-
-theorem Wp.newline0F (e : Ext lr0 lr) :
-    Wp E (PM.scan (Text.newline · 0)) lr (fun r lr1 => Ext lr0 lr1 ∧ lr.v.peeked ≤ lr1.v.peeked ∧
-      lr0.v.pos + r ≤ lr1.v.peeked ∧
-      (r = 0 ∨ (r = 1 ∧ lr0.v.rest[0]? = some 10) ∨
-        (r = 2 ∧ lr0.v.rest[0]? = some 13 ∧ lr0.v.rest[1]? = some 10))) := by
-  refine Wp.newline0.mono ?_
-  intro r lr1 ⟨e1, h⟩
-  rw [e.rest, e.pos] at h
-  exact ⟨e.trans e1, e1.peeked, h⟩
-
-theorem Wp.nextNewlineF (e : Ext lr0 lr) (off : Nat) :
-    Wp E (PM.scan (Text.nextNewline · off)) lr (fun r lr1 => Ext lr0 lr1 ∧
-      lr.v.peeked ≤ lr1.v.peeked ∧ off ≤ r ∧
-      lr0.v.pos + r ≤ lr1.v.peeked ∧ (off ≤ lr0.v.rest.length → r ≤ lr0.v.rest.length) ∧
-      ((off < r ∧ lr0.v.rest[r - 1]? = some 10 ∧ AllAt (· ≠ 10) lr0.v.rest off (r - 1)) ∨
-       (lr0.v.rest.length ≤ r ∧ AllAt (· ≠ 10) lr0.v.rest off r))) := by
-  refine (Wp.nextNewline off).mono ?_
-  intro r lr1 ⟨e1, h⟩
-  rw [e.rest, e.pos] at h
-  exact ⟨e.trans e1, e1.peeked, h⟩
-
-theorem Wp.fixed0F (e : Ext lr0 lr) (pat : VBytes) :
-    Wp E (PM.scan (Text.fixed · 0 pat)) lr (fun r lr1 => Ext lr0 lr1 ∧ lr.v.peeked ≤ lr1.v.peeked ∧
-      (r = 0 ∨ (r = pat.length ∧ pat <+: lr0.v.rest ∧ lr0.v.pos + r ≤ lr1.v.peeked))) := by
-  refine (Wp.fixed0 pat).mono ?_
-  intro r lr1 ⟨e1, h⟩
-  rw [e.rest, e.pos] at h
-  exact ⟨e.trans e1, e1.peeked, h⟩
-
-theorem Wp.asciiDigitsF (e : Ext lr0 lr) (t : IntTy) (off : Nat) :
-    Wp E (PM.scan (Text.asciiDigits t · off)) lr (fun r lr1 => Ext lr0 lr1 ∧
-      lr.v.peeked ≤ lr1.v.peeked ∧ off ≤ r.2 ∧
-      AllAt (fun x => isDigit x = true) lr0.v.rest off r.2 ∧ lr0.v.pos + r.2 + 1 ≤ lr1.v.peeked ∧
-      (off ≤ lr0.v.rest.length → r.2 ≤ lr0.v.rest.length)) := by
-  refine (Wp.asciiDigits t off).mono ?_
-  intro r lr1 ⟨e1, h⟩
-  rw [e.rest, e.pos] at h
-  exact ⟨e.trans e1, e1.peeked, h⟩
-
-theorem Wp.signedDigits0F (e : Ext lr0 lr) (t : IntTy) :
-    Wp E (PM.scan (Text.signedAsciiDigits t · 0)) lr (fun r lr1 => Ext lr0 lr1 ∧
-      lr.v.peeked ≤ lr1.v.peeked ∧
-      AllAt (fun x => isDigit x = true ∨ x = 45) lr0.v.rest 0 r.2) := by
-  refine (Wp.signedDigits0 t).mono ?_
-  intro r lr1 ⟨e1, h⟩
-  rw [e.rest] at h
-  exact ⟨e.trans e1, e1.peeked, h⟩
+    rw [h1, h2, e.rest]
+    obtain ⟨e3, p3, _⟩ := e.demandF (0 + ((lr0.v.rest.drop 0).takeWhile isDigit).length)
+    exact ⟨e3, by omega, (allAt_takeWhile isDigit _ _).mono (fun x hx => Or.inl hx),
+      Or.inl (by omega)⟩
 
 /-! ### the invariant -/
 
@@ -518,11 +506,12 @@ def SizeOK (b : VBytes) : Prop := b.length + 3 ≤ usizeMax
 theorem SizeOK.of_lt {b : VBytes} (h : b.length < 2 ^ 63) : SizeOK b := by
   unfold SizeOK usizeMax; omega
 
-/-- The view is a cursor into the input `b`. -/
-structure Base (b : VBytes) (lr : LR) : Prop where
+/-- The view is a cursor into the input `b` of a source that fails at its end iff `f`. -/
+structure Base (b : VBytes) (f : Bool) (lr : LR) : Prop where
   size : SizeOK b
   rest : lr.v.rest = b.drop lr.v.pos
   pos_le : lr.v.pos ≤ b.length
+  fault : lr.v.fault = f
 
 /-- `p` is a position on the current line `(s, l)`. -/
 structure OnLine (b : VBytes) (s l p : Nat) : Prop where
@@ -531,18 +520,23 @@ structure OnLine (b : VBytes) (s l p : Nat) : Prop where
   nolf : NoLF b s p
   lineAt : LineAt b s l
 
-/-- The state invariant of a `LineReader` parser over the input `b`. -/
-structure Inv (b : VBytes) (lr : LR) : Prop extends Base b lr where
+/-- The part of the invariant that also holds after an error has been taken. -/
+structure InvE (b : VBytes) (f : Bool) (lr : LR) : Prop extends Base b f lr where
   online : OnLine b lr.lineStart lr.line lr.v.pos
 
-/-- What an error may be: never a panic; a syntax error designates a position inside `b`. -/
-def ErrIn (b : VBytes) : PErr → Prop
-  | .io => True
-  | .syn l c => InRange b l c
-  | .panic _ => False
+/-- The state invariant of a `LineReader` parser over the input `b`. -/
+structure Inv (b : VBytes) (f : Bool) (lr : LR) : Prop extends InvE b f lr where
+  finv : FInv lr
 
-/-- Error postcondition: `ErrIn`, and the invariant still holds. -/
-def Err (b : VBytes) (e : PErr) (lr : LR) : Prop := Inv b lr ∧ ErrIn b e
+/-- Error postcondition: never a panic; an I/O error only from a failing source; a syntax error
+designates a position inside `b` and, when the source is a failing one, is raised before the
+reader has hit the end of the data; the position invariant still holds. -/
+def Err (b : VBytes) (f : Bool) (e : PErr) (lr : LR) : Prop :=
+  InvE b f lr ∧
+  match e with
+  | .io => f = true
+  | .syn l c => InRange b l c ∧ (f = true → lr.v.sawEnd = false)
+  | .panic _ => False
 
 /-- The mark is a position on the current line (what `exceeds_var_count` needs). -/
 def MarkOK (lr : LR) : Prop := lr.lineStart ≤ lr.v.mark ∧ lr.v.mark ≤ lr.v.pos
@@ -568,27 +562,41 @@ theorem MarkOK.fwd {a b : LR} (h : MarkOK a) (hf : Fwd a b) : MarkOK b := by
   have := hf.pos
   exact ⟨by rw [hf.lineStart, hf.mark]; exact h1, by rw [hf.mark]; omega⟩
 
-variable {b : VBytes}
+variable {b : VBytes} {f : Bool}
 
-theorem inv_init (b : VBytes) (fault : Bool) (h : SizeOK b) : Inv b (LR.init b fault) :=
-  { size := h, rest := by simp [LR.init, View.init], pos_le := Nat.zero_le _,
+theorem inv_init (b : VBytes) (fault : Bool) (h : SizeOK b) : Inv b fault (LR.init b fault) :=
+  { size := h, rest := by simp [LR.init, View.init], pos_le := Nat.zero_le _, fault := rfl,
     online := ⟨Nat.le_refl _, Nat.zero_le _, fun i h1 h2 => by simp [LR.init, View.init] at h2,
-      lineAt_init b⟩ }
+      lineAt_init b⟩,
+    finv := ⟨fun _ h => by simp [LR.init, View.init] at h, fun h => by simp [LR.init, View.init] at h⟩ }
 
-theorem Base.ext {lr lr1 : LR} (h : Base b lr) (e : Ext lr lr1) : Base b lr1 :=
-  ⟨h.size, by rw [e.rest, e.pos]; exact h.rest, by rw [e.pos]; exact h.pos_le⟩
+theorem Base.ext {lr lr1 : LR} (h : Base b f lr) (e : Ext lr lr1) : Base b f lr1 :=
+  ⟨h.size, by rw [e.rest, e.pos]; exact h.rest, by rw [e.pos]; exact h.pos_le,
+    by rw [e.fault]; exact h.fault⟩
 
-theorem Inv.ext {lr lr1 : LR} (h : Inv b lr) (e : Ext lr lr1) : Inv b lr1 :=
-  { toBase := h.toBase.ext e, online := by rw [e.lineStart, e.line, e.pos]; exact h.online }
+theorem Inv.ext {lr lr1 : LR} (h : Inv b f lr) (e : Ext lr lr1) : Inv b f lr1 :=
+  { toBase := h.toBase.ext e, online := by rw [e.lineStart, e.line, e.pos]; exact h.online,
+    finv := e.finv h.finv }
 
-theorem Base.getElem? {lr : LR} (h : Base b lr) (i : Nat) : lr.v.rest[i]? = b[lr.v.pos + i]? := by
+theorem Base.getElem? {lr : LR} (h : Base b f lr) (i : Nat) : lr.v.rest[i]? = b[lr.v.pos + i]? := by
   rw [h.rest, List.getElem?_drop]
 
-theorem Base.rest_length {lr : LR} (h : Base b lr) : lr.v.rest.length = b.length - lr.v.pos := by
+theorem Base.rest_length {lr : LR} (h : Base b f lr) : lr.v.rest.length = b.length - lr.v.pos := by
   rw [h.rest, List.length_drop]
 
+/-- With the invariant on both sides, progress of the position is progress on the input. -/
+theorem Base.rest_lt {lr lr1 : LR} (h : Base b f lr) (h1 : Base b f lr1)
+    (hp : lr.v.pos < lr1.v.pos) : lr1.v.rest.length < lr.v.rest.length := by
+  have := h.rest_length; have := h1.rest_length; have := h1.pos_le
+  omega
+
+theorem Base.rest_le {lr lr1 : LR} (h : Base b f lr) (h1 : Base b f lr1)
+    (hp : lr.v.pos ≤ lr1.v.pos) : lr1.v.rest.length ≤ lr.v.rest.length := by
+  have := h.rest_length; have := h1.rest_length
+  omega
+
 /-- The current line extends over consumed bytes that are not newlines. -/
-theorem OnLine.extend {lr : LR} {s l i j : Nat} (hb : Base b lr)
+theorem OnLine.extend {lr : LR} {s l i j : Nat} (hb : Base b f lr)
     (ho : OnLine b s l (lr.v.pos + i)) (hij : i ≤ j) (hj : j ≤ lr.v.rest.length)
     (h : AllAt (· ≠ 10) lr.v.rest i j) : OnLine b s l (lr.v.pos + j) := by
   have hl := hb.rest_length
@@ -608,34 +616,82 @@ theorem demanded_ge {lr : LR} {n : Nat} (h1 : n ≤ lr.v.rest.length) (h2 : lr.v
     n ≤ lr.v.demanded := by
   unfold View.demanded; omega
 
+/-- `&buf()[..n]` of scanned bytes. -/
+theorem Wp.bufPrefixF {lr0 lr : LR} {n : Nat} {Q : VBytes → LR → Prop} (e : Ext lr0 lr)
+    (hn : n ≤ lr0.v.rest.length) (hp : lr0.v.pos + n ≤ lr.v.peeked)
+    (h : Q (lr0.v.rest.take n) lr) : Wp E (PM.bufPrefix n) lr Q := by
+  refine Wp.bufPrefix (demanded_ge (by rw [e.rest]; exact hn) (by rw [e.pos]; exact hp)) ?_
+  rw [e.rest]; exact h
+
+theorem allAt_take {p : UInt8 → Prop} {l : VBytes} {n : Nat} (h : AllAt p l 0 n) :
+    ∀ x ∈ l.take n, p x := by
+  intro x hx
+  obtain ⟨i, hi, hxi⟩ := List.getElem_of_mem hx
+  have hi' : i < n := by simp at hi; omega
+  obtain ⟨y, hy, hp⟩ := h i (Nat.zero_le _) hi'
+  have : (l.take n)[i]? = some y := by rw [List.getElem?_take_of_lt hi']; exact hy
+  rw [List.getElem?_eq_getElem hi, hxi] at this
+  simp at this; rw [this]; exact hp
+
+theorem allAt_prefix {p : UInt8 → Prop} {pat l : VBytes} (hpre : pat <+: l) (hp : ∀ x ∈ pat, p x) :
+    AllAt p l 0 pat.length := by
+  intro k _ hk
+  refine ⟨pat[k], List.prefix_iff_getElem?.mp hpre k hk, hp _ (List.getElem_mem hk)⟩
+
+theorem AllAt.sub {p : UInt8 → Prop} {l : VBytes} {i j i' j' : Nat} (h : AllAt p l i j)
+    (hi : i ≤ i') (hj : j' ≤ j) : AllAt p l i' j' :=
+  fun k h1 h2 => h k (by omega) (by omega)
+
+theorem AllAt.single {p : UInt8 → Prop} {l : VBytes} {i : Nat} {x : UInt8} (h : l[i]? = some x)
+    (hp : p x) : AllAt p l i (i + 1) := by
+  intro k h1 h2
+  have : k = i := by omega
+  subst this; exact ⟨x, h, hp⟩
+
+theorem blank_ne_lf (x : UInt8) (h : isBlank x = true) : x ≠ 10 := by
+  intro hx; subst hx; simp [isBlank] at h
+
+theorem digit_ne_lf (x : UInt8) (h : isDigit x = true) : x ≠ 10 := by
+  intro hx; subst hx; simp [isDigit] at h
+
+theorem digit_lt (x : UInt8) (h : isDigit x = true) : x < 128 := by
+  simp only [isDigit, Bool.and_eq_true, decide_eq_true_eq] at h
+  have h2 : x.toNat ≤ 57 := UInt8.le_iff_toNat_le.mp h.2
+  exact UInt8.lt_iff_toNat_lt.mpr (by simp; omega)
+
 /-- `advance(n)` to a position on the current line (`lr0`: the state the facts are about). -/
-theorem Wp.adv' {lr0 lr : LR} {n : Nat} (e : Ext lr0 lr) (hb : Base b lr0)
+theorem Wp.adv' {lr0 lr : LR} {n : Nat} (e : Ext lr0 lr) (hb : Base b f lr0) (hf : FInv lr0)
     (hn : n ≤ lr0.v.rest.length) (hp : lr0.v.pos + n ≤ lr.v.peeked)
     (ho : OnLine b lr.lineStart lr.line (lr0.v.pos + n)) :
-    Wp E (PM.advance n) lr (fun _ lr1 => Inv b lr1 ∧ lr1.v.pos = lr0.v.pos + n ∧
-      lr1.line = lr.line ∧ lr1.lineStart = lr.lineStart ∧ lr1.v.mark = lr0.v.mark) := by
+    Wp E (PM.advance n) lr (fun _ lr1 => Inv b f lr1 ∧ lr1.v.pos = lr0.v.pos + n ∧
+      lr1.line = lr.line ∧ lr1.lineStart = lr.lineStart ∧ lr1.v.mark = lr0.v.mark ∧
+      lr1.v.peeked = lr.v.peeked ∧ lr1.v.sawEnd = lr.v.sawEnd) := by
   have hr := e.rest; have hps := e.pos
   refine Wp.advance (demanded_ge (by rw [hr]; exact hn) (by rw [hps]; exact hp)) ?_
-  refine ⟨{ size := hb.size, rest := ?_, pos_le := ?_, online := ?_ }, ?_, rfl, rfl, e.mark⟩
+  refine ⟨{ size := hb.size, rest := ?_, pos_le := ?_, fault := ?_, online := ?_, finv := e.finv hf },
+    ?_, rfl, rfl, e.mark, rfl, rfl⟩
   · show lr.v.rest.drop n = b.drop (lr.v.pos + n)
     rw [hr, hps, hb.rest, List.drop_drop]
   · have := hb.rest_length; have := hb.pos_le
     show lr.v.pos + n ≤ b.length
     omega
+  · show lr.v.fault = f
+    rw [e.fault]; exact hb.fault
   · show OnLine b lr.lineStart lr.line (lr.v.pos + n)
     rw [hps]; exact ho
   · show lr.v.pos + n = lr0.v.pos + n
     rw [hps]
 
 /-- `advance(n)` over scanned bytes that are not newlines. -/
-theorem Wp.adv {lr0 lr : LR} {n : Nat} (e : Ext lr0 lr) (h : Inv b lr0)
+theorem Wp.adv {lr0 lr : LR} {n : Nat} (e : Ext lr0 lr) (h : Inv b f lr0)
     (hn : n ≤ lr0.v.rest.length) (hp : lr0.v.pos + n ≤ lr.v.peeked)
     (hlf : AllAt (· ≠ 10) lr0.v.rest 0 n) :
-    Wp E (PM.advance n) lr (fun _ lr1 => Inv b lr1 ∧ Fwd lr0 lr1 ∧ lr1.v.pos = lr0.v.pos + n) := by
+    Wp E (PM.advance n) lr (fun _ lr1 => Inv b f lr1 ∧ Fwd lr0 lr1 ∧ lr1.v.pos = lr0.v.pos + n ∧
+      lr1.v.peeked = lr.v.peeked ∧ lr1.v.sawEnd = lr.v.sawEnd) := by
   have ho := OnLine.extend h.toBase (i := 0) h.online (Nat.zero_le _) hn hlf
-  refine (Wp.adv' e h.toBase hn hp (by rw [e.line, e.lineStart]; exact ho)).mono ?_
-  intro _ lr1 ⟨i1, p1, l1, s1, m1⟩
-  exact ⟨i1, ⟨by omega, l1.trans e.line, s1.trans e.lineStart, m1⟩, p1⟩
+  refine (Wp.adv' e h.toBase h.finv hn hp (by rw [e.line, e.lineStart]; exact ho)).mono ?_
+  intro _ lr1 ⟨i1, p1, l1, s1, m1, k1, e1⟩
+  exact ⟨i1, ⟨by omega, l1.trans e.line, s1.trans e.lineStart, m1⟩, p1, k1, e1⟩
 
 /-- The state after `line_at_offset(off)`. -/
 def nextLine (lr : LR) (off : Nat) : LR :=
@@ -648,11 +704,11 @@ def nextLine (lr : LR) (off : Nat) : LR :=
 
 /-- `line_at_offset(off)` behind a scanned line end: no overflow; the new line start is right.
 The base state becomes `nextLine lr0 off`. -/
-theorem Wp.lao {lr0 lr : LR} {off : Nat} (e : Ext lr0 lr) (h : Inv b lr0) (h0 : 0 < off)
+theorem Wp.lao {lr0 lr : LR} {off : Nat} (e : Ext lr0 lr) (h : Inv b f lr0) (h0 : 0 < off)
     (hle : off ≤ lr0.v.rest.length) (hno : AllAt (· ≠ 10) lr0.v.rest 0 (off - 1))
     (hend : lr0.v.rest[off - 1]? = some 10 ∨ off = lr0.v.rest.length) :
     Wp E (PM.lineAtOffset off) lr (fun _ lr1 => Ext (nextLine lr0 off) lr1 ∧
-      lr.v.peeked ≤ lr1.v.peeked ∧ Base b (nextLine lr0 off) ∧
+      lr1.v = lr.v ∧ Base b f (nextLine lr0 off) ∧
       OnLine b (lr0.v.pos + off) (lr0.line + 1) (lr0.v.pos + off)) := by
   have hl := h.rest_length
   have hpl := h.pos_le
@@ -661,7 +717,8 @@ theorem Wp.lao {lr0 lr : LR} {off : Nat} (e : Ext lr0 lr) (h : Inv b lr0) (h0 : 
   unfold SizeOK at hsz
   have hps := e.pos; have hli := e.line
   refine Wp.lineAtOffset (by omega) (by omega) ?_
-  refine ⟨⟨e.rest, e.pos, e.mark, ?_, ?_, e.peeked⟩, Nat.le_refl _, ⟨h.size, h.rest, h.pos_le⟩, ?_⟩
+  refine ⟨⟨e.rest, e.pos, e.mark, ?_, ?_, e.peeked, e.fault, e.finv⟩, rfl,
+    ⟨h.size, h.rest, h.pos_le, h.fault⟩, ?_⟩
   · show lr.line + 1 = lr0.line + 1
     rw [hli]
   · show lr.v.pos + off = lr0.v.pos + off
@@ -681,18 +738,26 @@ theorem Wp.lao {lr0 lr : LR} {off : Nat} (e : Ext lr0 lr) (h : Inv b lr0) (h0 : 
     · right; omega
 
 /-- `give_up_at(p)` for a position on the current line. -/
-theorem Wp.errAt {lr : LR} {p : Nat} {Q : α → LR → Prop} (h : Inv b lr)
-    (h1 : lr.lineStart ≤ p) (h2 : p ≤ lr.v.pos) : Wp (Err b) (PM.giveUpAt p : PM α) lr Q := by
-  have hinv : Inv b { lr with v := lr.v.checkIoError.2 } :=
-    { size := h.size, rest := h.rest, pos_le := h.pos_le, online := h.online }
-  refine Wp.giveUpAt (fun _ => ⟨hinv, trivial⟩) (fun _ => ⟨h1, hinv, ?_⟩)
-  have := h.pos_le
-  exact lineAt_inRange b _ _ p h.online.lineAt h1 (by omega)
-    (fun i hi1 hi2 => h.online.nolf i hi1 (by omega))
+theorem Wp.errAt {lr : LR} {p : Nat} {Q : α → LR → Prop} (h : Inv b f lr)
+    (h1 : lr.lineStart ≤ p) (h2 : p ≤ lr.v.pos) : Wp (Err b f) (PM.giveUpAt p : PM α) lr Q := by
+  have hinv : InvE b f { lr with v := lr.v.checkIoError.2 } :=
+    { size := h.size, rest := h.rest, pos_le := h.pos_le, fault := h.fault, online := h.online }
+  refine Wp.giveUpAt (fun hio => ⟨hinv, ?_⟩) (fun hio => ⟨h1, hinv, ?_, ?_⟩)
+  · show f = true
+    rw [← h.fault]; exact h.finv.2 hio
+  · have := h.pos_le
+    exact lineAt_inRange b _ _ p h.online.lineAt h1 (by omega)
+      (fun i hi1 hi2 => h.online.nolf i hi1 (by omega))
+  · intro hf
+    show lr.v.sawEnd = false
+    cases hs : lr.v.sawEnd
+    · rfl
+    · have := h.finv.1 (by rw [h.fault]; exact hf) hs
+      rw [hio] at this; exact absurd this (by simp)
 
 /-- `give_up()`: an error at the cursor. -/
-theorem Wp.err {lr : LR} {Q : α → LR → Prop} (h : Inv b lr) :
-    Wp (Err b) (PM.giveUp : PM α) lr Q := by
+theorem Wp.err {lr : LR} {Q : α → LR → Prop} (h : Inv b f lr) :
+    Wp (Err b f) (PM.giveUp : PM α) lr Q := by
   unfold PM.giveUp
   refine Wp.bind (Wp.position ?_)
   exact Wp.errAt h h.online.le (Nat.le_refl _)
